@@ -50,7 +50,7 @@ def sw(recv, fn):
 //@   property C09
 //@   maypanic
 //@   requires alpha != nil && allocated(idxRef(alpha))
-//@   ensures [illegal-reference] len(qSeq) > 0 && (exists k int :: 0 <= k && k < len(rSeq) && lidx(alpha, rSeq[k]) < 0) ==> result1 != nil
+{ENSPAIRS}//@   ensures [illegal-reference] len(qSeq) > 0 && (exists k int :: 0 <= k && k < len(rSeq) && lidx(alpha, rSeq[k]) < 0) ==> result1 != nil
 //@   ensures [illegal-query]     len(rSeq) > 0 && (exists k int :: 0 <= k && k < len(qSeq) && lidx(alpha, qSeq[k]) < 0) ==> result1 != nil
 //@   ensures [undersized]        len(a) < alphaLen(alpha) ==> result1 != nil
 //@   ensures [ragged]            (exists k int :: 0 <= k && k < len(a) && len(a[k]) != len(a)) ==> result1 != nil
@@ -163,7 +163,7 @@ def fittedaffine(recv, fn):
 # ---- C08: the dynamic programming table equals the optimum defined by the recurrence ----
 # optimum spec functions: one per kernel (receiver and letter type); cell() is a marker that lets the definitional
 # axiom fire only for the cell a proof obligation is about (proving(cell(i, j)) is dropped where a clause is assumed).
-TB = {'nw': (8, 9)}
+TB = {'nw': (8, 9), 'sw': (4, 5), 'fitted': (9, 10)}
 def opt_name(kind, ql):
     return {'nw': 'nwOpt', 'sw': 'swOpt', 'fitted': 'fitOpt'}[kind] + ('Q' if ql else '')
 def opt_specs():
@@ -180,6 +180,8 @@ def opt_specs():
            "//@ axiom forall i int, j int {want(i, j)} :: want(i, j)",
            "//@ spec succ(k int, k2 int) bool",
            "//@ axiom forall k int, k2 int {succ(k, k2)} :: succ(k, k2)",
+           "//@ spec touch(v int) bool",
+           "//@ axiom forall v int {touch(v)} :: touch(v)",
            "//@ spec defmark(i int) bool",
            "//@ axiom forall i int {defmark(i)} :: defmark(i)",
            "//@ spec rowbase(i int, c int) int",
@@ -251,8 +253,8 @@ def dp_lines(kind, ql):
     for n in after:
         if kind in TB and n == TB[kind][0]:
             A(n, 'dp', f"forall i2 int, j2 int {{want(i2, j2)}} :: 0 <= i2 && i2 < r && 0 <= j2 && j2 < c ==> proving(want(i2, j2)) && proving(defmark(i2)) && proving(cell(i2, j2)) && table[rowbase(i2, c)+j2] == {O('i2', 'j2')}")
-            A(n, 'base', "proving(defmark(i)) && rowbase(i, c) == i*c")
-            A(n, 'wants', "want(i, j) && want(i-1, j-1) && want(i-1, j) && want(i, j-1)")
+            A(n, 'base', "proving(defmark(i)) && rowbase(i, c) == i*c && proving(defmark(0)) && rowbase(0, c) == 0")
+            A(n, 'wants', "want(i, j) && want(i-1, j-1) && want(i-1, j) && want(i, j-1) && want(0, j)")
         else:
             A(n, 'dp', done('r'))
     return "\n".join(out) + "\n"
@@ -291,6 +293,53 @@ def tb_ensures(kind, ql):
     return (f"//@   ensures [objects] result1 == nil ==> forall k int {{result0[k]}} :: 0 <= k && k < len(result0) ==> result0[k].(*featPair) != nil\n"
             f"//@   ensures [scores] result1 == nil ==> forall k int {{result0[k]}} :: 0 <= k && k < len(result0) ==> {fp(e,'score')} == {O(fp(e,'a.end'), fp(e,'b.end'))} - {O(fp(e,'a.start'), fp(e,'b.start'))}\n"
             f"//@   ensures [chain] result1 == nil ==> forall k int, k2 int {{succ(k, k2)}} :: 0 <= k && k2 == k + 1 && k2 < len(result0) ==> proving(succ(k, k2)) && {fp('result0[k]','a.end')} == {fp('result0[k2]','a.start')} && {fp('result0[k]','b.end')} == {fp('result0[k2]','b.start')}\n")
+
+# ---- Smith-Waterman (C08): the traceback starts at a cell holding the largest value of the whole table (for matrices
+# whose gap scores are not positive) and stops at a cell whose optimum is zero ----
+def sw_lines(ql):
+    f = opt_name('sw', ql)
+    O = lambda i, j: f"{f}(a, alpha, rSeq, qSeq, {i}, {j})"
+    # gap scores are not positive, said for the letters' indices so that the index terms of the code trigger it
+    NP = "(forall b int {lidx(alpha, b)} :: lidx(alpha, b) >= 0 ==> old(a[lidx(alpha, b)][0]) <= 0 && old(a[0][lidx(alpha, b)]) <= 0)"
+    rng = "0 <= i2 && i2 < r && 0 <= j2 && j2 < c"
+    out = []
+    A = lambda n, lab, e: out.append(f"//@   loop {n} invariant [{lab}] {e}")
+    for n in (2, 3):
+        A(n, 'bestv', f"maxS >= 0 && proving(cell(maxI, maxJ)) && maxS == {O('maxI', 'maxJ')}")
+    A(2, 'best', f"{NP} ==> forall i2 int, j2 int {{{O('i2','j2')}}} :: {rng} && (i2 < i || j2 == 0) ==> proving(cell(i2, j2)) && {O('i2','j2')} <= maxS")
+    A(3, 'best', f"{NP} ==> forall i2 int, j2 int {{{O('i2','j2')}}} :: {rng} && (i2 < i || j2 == 0 || (i2 == i && j2 < j - 1)) ==> proving(cell(i2, j2)) && {O('i2','j2')} <= maxS")
+    A(3, 'newbest', f"{NP} ==> proving(touch({O('i', 'j-1')})) && proving(cell(i, j-1)) && table[i*c+j-1] <= maxS")
+    A(4, 'best', f"{NP} ==> forall i2 int, j2 int {{{O('i2','j2')}}} :: {rng} ==> {O('i2','j2')} <= maxS")
+    A(4, 'bestcell', f"(len(aln) == 0 ==> {O('maxI','maxJ')} == maxS) && (forall k int {{aln[k]}} :: k == 0 && k < len(aln) ==> {O(fp('aln[k]','a.end'), fp('aln[k]','b.end'))} == maxS)")
+    A(4, 'here', "cell(i, j)")
+    A(5, 'best', f"{NP} ==> forall i2 int, j2 int {{{O('i2','j2')}}} :: {rng} ==> {O('i2','j2')} <= maxS")
+    A(5, 'ends', f"len(aln) > 0 && (i == 0 ==> {O(fp('aln[0]','a.end'), fp('aln[0]','b.end'))} == maxS && {O(fp('aln[len(aln)-1]','a.start'), fp('aln[len(aln)-1]','b.start'))} == 0) && (i > 0 ==> {O(fp('aln[len(aln)-1]','a.end'), fp('aln[len(aln)-1]','b.end'))} == maxS && {O(fp('aln[0]','a.start'), fp('aln[0]','b.start'))} == 0)")
+    return "\n".join(out) + "\n"
+def sw_ensures(ql):
+    f = opt_name('sw', ql)
+    O = lambda i, j: f"{f}(a, alpha, rSeq, qSeq, {i}, {j})"
+    NP = "(forall x int {old(a[x][0])} :: 0 <= x && x < len(a) ==> old(a[x][0]) <= 0) && (forall x int {old(a[0][x])} :: 0 <= x && x < len(a) ==> old(a[0][x]) <= 0)"
+    last = 'result0[len(result0)-1]'
+    return (f"//@   ensures [nonempty] result1 == nil ==> len(result0) > 0\n"
+            f"//@   ensures [zero] result1 == nil ==> {O(fp('result0[0]','a.start'), fp('result0[0]','b.start'))} == 0\n"
+            f"//@   ensures [best] result1 == nil && {NP} ==> forall i2 int, j2 int {{{O('i2','j2')}}} :: 0 <= i2 && i2 <= len(rSeq) && 0 <= j2 && j2 <= len(qSeq) ==> {O('i2','j2')} <= {O(fp(last,'a.end'), fp(last,'b.end'))}\n")
+
+# ---- the fitted aligner (C08): the description ends at the end of the query and starts at a cell whose optimum is zero ----
+def fitted_lines(ql):
+    f = opt_name('fitted', ql)
+    O = lambda i, j: f"{f}(a, alpha, rSeq, qSeq, {i}, {j})"
+    out = []
+    A = lambda n, lab, e: out.append(f"//@   loop {n} invariant [{lab}] {e}")
+    A(9, 'here', "cell(i, j)")
+    A(9, 'qend', f"(len(aln) == 0 ==> maxJ == c - 1) && (forall k int {{aln[k]}} :: k == 0 && k < len(aln) ==> {fp('aln[k]','b.end')} == c - 1)")
+    A(10, 'ends', f"len(aln) > 0 && (i == 0 ==> {fp('aln[0]','b.end')} == len(qSeq) && {O(fp('aln[len(aln)-1]','a.start'), fp('aln[len(aln)-1]','b.start'))} == 0) && (i > 0 ==> {fp('aln[len(aln)-1]','b.end')} == len(qSeq) && {O(fp('aln[0]','a.start'), fp('aln[0]','b.start'))} == 0)")
+    return "\n".join(out) + "\n"
+def fitted_ensures(ql):
+    f = opt_name('fitted', ql)
+    O = lambda i, j: f"{f}(a, alpha, rSeq, qSeq, {i}, {j})"
+    return (f"//@   ensures [nonempty] result1 == nil ==> len(result0) > 0\n"
+            f"//@   ensures [zero] result1 == nil ==> {O(fp('result0[0]','a.start'), fp('result0[0]','b.start'))} == 0\n"
+            f"//@   ensures [qend] result1 == nil ==> {fp('result0[len(result0)-1]','b.end')} == len(qSeq)\n")
 def q(s):
     # quality letters: the letter of element k is rSeq[k].L
     return s.replace('rSeq[k]', 'rSeq[k].L').replace('qSeq[k]', 'qSeq[k].L').replace('rSeq[i-1]', 'rSeq[i-1].L')
@@ -302,7 +351,8 @@ for mk, recv, kind in ((nw, 'NW', 'nw'), (sw, 'SW', 'sw'), (fitted, 'Fitted', 'f
             c = q(c)
         c = c.replace('//@   property C09\n', '//@   property C09\n//@   property C08\n') + dp_lines(kind, ql)
         if kind in TB:
-            c = c.replace('//@   loop 1 invariant', tb_ensures(kind, ql) + '//@   loop 1 invariant', 1) + tb_lines(kind, ql, *TB[kind])
+            ens = tb_ensures(kind, ql) + (sw_ensures(ql) if kind == 'sw' else '') + (fitted_ensures(ql) if kind == 'fitted' else '')
+            c = c.replace('//@   loop 1 invariant', ens + '//@   loop 1 invariant', 1) + tb_lines(kind, ql, *TB[kind]) + (sw_lines(ql) if kind == 'sw' else '') + (fitted_lines(ql) if kind == 'fitted' else '')
         out.append(c)
 out.append(nwaffine('NWAffine', 'alignLetters'))
 out.append(q(nwaffine('NWAffine', 'alignQLetters')))
